@@ -9,10 +9,13 @@ namespace Ibx.Tie.Dot
 open Ibx.Model.Pop3Send
 
 /-
-  The facts are structural (harness/cmd/extract/k1kit.go, dot.go): `$p<i>` is the i-th parameter of the exported
+  The facts are structural (harness/cmd/extract/k1kit.go, kit_t1a.go, dot.go): `$p<i>` is the i-th parameter of the exported
   Deliver, `$p` a parameter of an unexported helper, `$r` the receiver, `$each(X)` the range variable over X, `$v` a local
   that is assigned more than once, `$outer(X)` a value computed before the loop that uses it; a local defined once is
-  replaced by its definition and an unexported helper by what it returns.  Local and helper names do not occur.
+  replaced by its definition and an unexported helper by what it returns.  Local and helper names do not occur.  A string
+  built from literal pieces and values is reported in ONE format + arguments form (`format#i`), whether the source uses
+  fmt.Sprintf, `+` or strconv.Itoa (the plain verbs %s %v %d are one verb, written %s: for the string operands here they
+  print the same bytes, and the lines are compared byte for byte by the correspondence runs).
 -/
 
 /-- the Return-Path line: same format string, one argument (the envelope sender = Deliver's first parameter) -/
@@ -27,11 +30,11 @@ theorem recvdHeader_tie : Gen.Dot.recvdHeaderFmt = some recvdHeaderFmt ∧
 /-- the stored source is Return-Path, Received, then the block (fourth parameter) — in this order, nothing else, each
     reader made per mailbox (none hoisted out of the loop) -/
 theorem multiReader_tie : Gen.Dot.multiReaderArgs =
-    some ["strings.NewReader(fmt.Sprintf#0)", "strings.NewReader(fmt.Sprintf#1)", "bytes.NewReader($p3)"] := by decide
+    some ["strings.NewReader(format#0)", "strings.NewReader(format#1)", "bytes.NewReader($p3)"] := by decide
 /-- the DATA handler hands Deliver the sender, the recipients, the header and the bytes of the block exactly as
-    textproto's ReadDotBytes returned them (through a bytes.Buffer, which is the identity) -/
+    textproto's ReadDotBytes returned them (directly, or through a bytes.Buffer that is only read, which is the identity) -/
 theorem deliver_tie : Gen.Dot.deliverArgs =
-    some ["$r.from", "$r.recipients", "fmt.Sprintf#hdr", "bytes.NewBuffer($r.text.ReadDotBytes()#0).Bytes()"] := by decide
+    some ["$r.from", "$r.recipients", "format#hdr", "$r.text.ReadDotBytes()#0"] := by decide
 /-- the timestamp layout has a fixed width in UTC (the harness masks 37 bytes) -/
 theorem timeFmt_tie : Gen.Dot.recvdTimeFmt = some "Mon, 02 Jan 2006 15:04:05 -0700 (MST)" := by decide
 
